@@ -6,7 +6,7 @@ from ..common import body_by_name, callee_names, callgraph, helper_owners, switc
 from ..inline import inlined, same_impl_helpers
 from ..facts import callee, const_int, const_str, op_const, op_local, op_place
 from ..flow import Flow, identity_through
-from ..scans import SCANS, SCAN_RECEIVER_OK, closure_of_local, found_rejects, only_err_returns, scan_of
+from ..scans import SCANS, SCAN_RECEIVER_OK, closure_of_local, found_rejects, only_err_returns, scan_of, with_scan_helpers
 
 CONFIGS_QUICK = ["K1"]
 WITNESS_PREFIX = "C07"
@@ -79,6 +79,7 @@ def name_rules(rep, prog, cfg):
                 rep.check(root == M + "Command::build", "C07.name-alphabet", "%s/constructor %s" % (cfg, root), b.loc(s["span"]),
                           "%s constructs a Command without going through the name validation" % root)
     # alphabet
+    V = with_scan_helpers(prog, V)
     try:
         sc = scan_of(prog, V)
     except charset.Opaque as e:
